@@ -4963,4 +4963,661 @@ theorem width_chars {d : TokenDef} (hr : layoutReady d) {u u' : Nat} (hu : 0 < u
   rw [t1, t2]
   exact rebuildLoop_rel hu hu' (AllRel.append hall (.cons (Rescaled.of_eq (by decide) rfl rfl) .nil)) Ctx.init Ctx.init 0 (CtxRel.init u u')
 
+/-! ### declarative closing rule of string literals and comments -/
+
+/-- length of the run of backslashes at the end of `l` -/
+def bsRun (l : Str) : Nat := (l.reverse.takeWhile (fun c => c = '\\')).length
+
+/-- the sequence `p` occurs in `src` at offset `idx` -/
+def occursAt (src p : Str) (idx : Nat) : Prop := idx ≤ src.length ∧ Str.startsWith (src.drop idx) p = true
+
+/-- `idx` closes the literal whose body starts at `body`: the closing sequence occurs there and the run of backslashes in
+    front of it (inside the body) is even -/
+def IsCloser (src close : Str) (body idx : Nat) : Prop :=
+  body ≤ idx ∧ occursAt src close idx ∧ bsRun (slice src body idx) % 2 = 0
+
+theorem slice_snoc (src : Str) {b k : Nat} {c : Char} (hbk : b ≤ k) (hc : src[k]? = some c) :
+    slice src b (k + 1) = slice src b k ++ [c] := by
+  rw [slice_split src hbk (Nat.le_succ k), slice_one hc]
+
+theorem escapeRun_eq (src : Str) (body idx : Nat) (hidx : idx ≤ src.length) : ∀ (f esc : Nat), esc ≤ idx - body → idx - body - esc ≤ f →
+    escapeRun src body idx f esc = esc + bsRun (slice src body (idx - esc))
+  | 0, esc, h1, h2 => by
+    have : idx - esc ≤ body := by omega
+    have hs : slice src body (idx - esc) = [] := by
+      unfold slice; apply List.drop_eq_nil_of_le; simp; omega
+    simp [escapeRun, hs, bsRun]
+  | f + 1, esc, h1, h2 => by
+    simp only [escapeRun]
+    by_cases hgt : idx - esc > body
+    · have hk : idx - esc - 1 < src.length := by omega
+      have hget : src[idx - esc - 1]? = some (src[idx - esc - 1]'hk) := List.getElem?_eq_getElem hk
+      have hsn : slice src body (idx - esc) = slice src body (idx - esc - 1) ++ [src[idx - esc - 1]'hk] := by
+        have := slice_snoc src (b := body) (k := idx - esc - 1) (by omega) hget
+        rwa [show idx - esc - 1 + 1 = idx - esc from by omega] at this
+      simp only [hgt, decide_true, Bool.true_and, hget]
+      by_cases hc : src[idx - esc - 1]'hk = '\\'
+      · simp only [hc, beq_self_eq_true, ↓reduceIte]
+        rw [escapeRun_eq src body idx hidx f (esc + 1) (by omega) (by omega), hsn]
+        simp only [bsRun, List.reverse_append, List.reverse_cons, List.reverse_nil, List.nil_append, List.cons_append,
+          List.takeWhile, hc, decide_true, List.length_cons]
+        rw [show idx - (esc + 1) = idx - esc - 1 from by omega]
+        omega
+      · have : (some (src[idx - esc - 1]'hk) == some '\\') = false := by simp [hc]
+        simp only [this, Bool.false_eq_true, ↓reduceIte]
+        rw [hsn]
+        simp [bsRun, hc]
+    · have hs : slice src body (idx - esc) = [] := by
+        unfold slice; apply List.drop_eq_nil_of_le; simp; omega
+      simp [hgt, hs, bsRun]
+
+theorem findSub_spec (p : Str) : ∀ (s : Str) (i : Nat), findSub p s = some i →
+    Str.startsWith (s.drop i) p = true ∧ ∀ j, j < i → Str.startsWith (s.drop j) p = false
+  | [], i, h => by
+    simp only [findSub] at h
+    split at h
+    · injection h with h; subst h; rename_i hp; subst hp; simp [Str.startsWith]
+    · cases h
+  | c :: cs, i, h => by
+    simp only [findSub] at h
+    by_cases hs : Str.startsWith (c :: cs) p = true
+    · simp only [hs, ↓reduceIte, Option.some.injEq] at h
+      subst h; exact ⟨by simpa using hs, fun j hj => by omega⟩
+    · simp only [hs, Bool.false_eq_true, ↓reduceIte] at h
+      cases hf : findSub p cs with
+      | none => rw [hf] at h; cases h
+      | some k =>
+        rw [hf] at h; simp only [Option.map_some, Option.some.injEq] at h; subst h
+        obtain ⟨h1, h2⟩ := findSub_spec p cs k hf
+        refine ⟨by simpa using h1, ?_⟩
+        intro j hj
+        cases j with
+        | zero => simpa using hs
+        | succ j' => simpa using h2 j' (by omega)
+
+theorem findSub_none_spec (p : Str) : ∀ (s : Str), findSub p s = none → ∀ j, j ≤ s.length → Str.startsWith (s.drop j) p = false
+  | [], h, j, hj => by
+    simp only [findSub] at h
+    split at h
+    · cases h
+    · rename_i hp
+      have : j = 0 := by simpa using hj
+      subst this
+      cases p with
+      | nil => exact absurd rfl hp
+      | cons q qs => simp [Str.startsWith]
+  | c :: cs, h, j, hj => by
+    simp only [findSub] at h
+    by_cases hs : Str.startsWith (c :: cs) p = true
+    · simp [hs] at h
+    · simp only [hs, Bool.false_eq_true, ↓reduceIte] at h
+      cases hf : findSub p cs with
+      | some k => rw [hf] at h; cases h
+      | none =>
+        cases j with
+        | zero => simpa using hs
+        | succ j' => simpa using findSub_none_spec p cs hf j' (by simpa using hj)
+
+/-- `find(p, e)`: the least occurrence at or after `e` -/
+theorem findFrom_spec {src p : Str} {e idx : Nat} (h : findFrom src p e = some idx) :
+    occursAt src p idx ∧ e ≤ idx ∧ ∀ j, e ≤ j → j < idx → ¬ occursAt src p j := by
+  have hb := findFrom_bound h
+  unfold findFrom at h
+  split at h
+  · rename_i he
+    cases hf : findSub p (src.drop e) with
+    | none => rw [hf] at h; cases h
+    | some k =>
+      rw [hf] at h; simp only [Option.map_some, Option.some.injEq] at h; subst h
+      obtain ⟨h1, h2⟩ := findSub_spec p _ k hf
+      refine ⟨⟨by omega, ?_⟩, by omega, ?_⟩
+      · rw [List.drop_drop] at h1; rwa [Nat.add_comm]
+      · intro j hj1 hj2 ⟨_, hocc⟩
+        have := h2 (j - e) (by omega)
+        rw [List.drop_drop, show e + (j - e) = j from by omega] at this
+        rw [this] at hocc; cases hocc
+  · cases h
+
+theorem findFrom_none_spec {src p : Str} {e : Nat} (he : e ≤ src.length) (h : findFrom src p e = none) :
+    ∀ j, e ≤ j → ¬ occursAt src p j := by
+  unfold findFrom at h
+  simp only [he, ↓reduceIte] at h
+  cases hf : findSub p (src.drop e) with
+  | some k => rw [hf] at h; cases h
+  | none =>
+    intro j hj ⟨hjl, hocc⟩
+    have := findSub_none_spec p _ hf (j - e) (by simp; omega)
+    rw [List.drop_drop, show e + (j - e) = j from by omega] at this
+    rw [this] at hocc; cases hocc
+
+/-- **The closing rule.** The quote loop stops right after the *first* occurrence of the closing sequence (at or after the
+    start of the body) that is not preceded, inside the body, by an odd run of backslashes; if there is none, the literal
+    is unterminated and the loop stops somewhere inside the source. -/
+theorem quoteLoop_spec {src close : Str} (hc : 0 < close.length) (body : Nat) : ∀ (fuel e E : Nat), body ≤ e → e ≤ src.length →
+    src.length - e ≤ fuel → (∀ j, body ≤ j → j < e → ¬ IsCloser src close body j) →
+    quoteLoop src close body fuel e = .ok E →
+    (∃ idx, IsCloser src close body idx ∧ (∀ j, body ≤ j → j < idx → ¬ IsCloser src close body j) ∧ E = idx + close.length) ∨
+    ((∀ j, ¬ IsCloser src close body j) ∧ e ≤ E ∧ E ≤ src.length)
+  | fuel, e, E, hbe, hel, hf, hinv, h => by
+    unfold quoteLoop at h
+    split at h
+    · rename_i hlt
+      cases fuel with
+      | zero => omega
+      | succ f =>
+        simp only [] at h
+        cases hfind : findFrom src close e with
+        | none =>
+          rw [hfind] at h
+          simp only [Except.ok.injEq] at h; subst h
+          right
+          refine ⟨?_, Nat.le_refl _, hel⟩
+          intro j ⟨hbj, hocc, _⟩
+          by_cases hje : j < e
+          · exact hinv j hbj hje ⟨hbj, hocc, by assumption⟩
+          · exact findFrom_none_spec hel hfind j (by omega) hocc
+        | some idx =>
+          rw [hfind] at h
+          simp only [] at h
+          obtain ⟨hocc, hei, hmin⟩ := findFrom_spec hfind
+          have hb := findFrom_bound hfind
+          have hrun : escapeRun src body idx (idx + 1) 0 = bsRun (slice src body idx) := by
+            rw [escapeRun_eq src body idx (by omega) (idx + 1) 0 (by omega) (by omega)]; simp
+          have hnone : ∀ j, body ≤ j → j < idx → ¬ IsCloser src close body j := by
+            intro j hbj hji hcl
+            by_cases hje : j < e
+            · exact hinv j hbj hje hcl
+            · exact hmin j (by omega) hji hcl.2.1
+          by_cases hesc : escapeRun src body idx (idx + 1) 0 % 2 = 1
+          · simp only [hesc, ↓reduceIte] at h
+            have hnot : ¬ IsCloser src close body idx := by
+              intro ⟨_, _, hev⟩; rw [← hrun] at hev; omega
+            have := quoteLoop_spec hc body f (idx + 1) E (by omega) (by omega) (by omega) (by
+              intro j hbj hji
+              by_cases hj : j = idx
+              · subst hj; exact hnot
+              · exact hnone j hbj (by omega)) h
+            cases this with
+            | inl h1 => exact Or.inl h1
+            | inr h1 => exact Or.inr ⟨h1.1, by omega, h1.2.2⟩
+          · simp only [hesc, ↓reduceIte, Except.ok.injEq] at h
+            left
+            exact ⟨idx, ⟨by omega, hocc, by rw [← hrun]; omega⟩, hnone, h.symm⟩
+    · simp only [Except.ok.injEq] at h; subst h
+      right
+      refine ⟨?_, Nat.le_refl _, hel⟩
+      intro j ⟨hbj, ⟨hjl, hocc⟩, _⟩
+      by_cases hje : j < e
+      · exact hinv j hbj hje ⟨hbj, ⟨hjl, hocc⟩, by assumption⟩
+      · have := startsWith_length _ _ hocc
+        simp at this; omega
+
+theorem occursAt_single {src : Str} {c : Char} {j : Nat} : occursAt src [c] j ↔ src[j]? = some c := by
+  unfold occursAt
+  constructor
+  · intro ⟨_, h⟩
+    cases hd : src.drop j with
+    | nil => rw [hd] at h; simp [Str.startsWith] at h
+    | cons x xs =>
+      rw [hd] at h
+      simp only [Str.startsWith, Bool.and_true, decide_eq_true_eq] at h
+      have : (src.drop j)[0]? = some x := by rw [hd]; rfl
+      rw [List.getElem?_drop] at this
+      simpa [h] using this
+  · intro h
+    have hlt := getElem?_lt h
+    refine ⟨by omega, ?_⟩
+    rw [drop_eq_cons_of_getElem? h]
+    simp [Str.startsWith]
+
+theorem not_mem_slice {src : Str} {c : Char} {k e : Nat} (h : ∀ j, k ≤ j → j < e → src[j]? ≠ some c) : c ∉ slice src k e := by
+  intro hm
+  unfold slice at hm
+  obtain ⟨i, hi⟩ := List.mem_iff_getElem?.mp hm
+  rw [List.getElem?_drop, List.getElem?_take] at hi
+  split at hi
+  · rename_i hlt; exact h (k + i) (by omega) hlt hi
+  · cases hi
+
+/-- **Comment boundary.** A comment token (closing sequence = newline) starts with its opener and extends exactly to the
+    first newline at or after the opener's end — or to the end of the source; it never contains that newline. In
+    particular an empty comment `#` directly followed by a newline is the one-character token `#`. -/
+theorem parseComment_spec {d : TokenDef} (hwl : wfLayout d = true) {src : Str} {b e : Nat} {t : Token}
+    (h : parseComment d src b = .ok (e, t)) :
+    ∃ pair, firstOpen d.comment src b = .ok pair ∧ t.type = T.comment ∧ t.string = slice src b e ∧
+      b + pair.1.length ≤ e ∧ '\n' ∉ slice src (b + pair.1.length) e ∧ (e = src.length ∨ src[e]? = some '\n') := by
+  unfold parseComment at h
+  cases hf : firstOpen d.comment src b with
+  | error er => rw [hf] at h; cases h
+  | ok p0 =>
+    rw [hf] at h
+    obtain ⟨hmem, hs⟩ := firstOpen_ok hf
+    have hclose := wfLayout_comment hwl hmem
+    have hbound := startsWithAt_bound hs
+    simp only [bind, Except.bind, hclose, ↓reduceIte, Nat.add_zero] at h
+    refine ⟨p0, rfl, ?_⟩
+    cases hfind : findFrom src ['\n'] (b + p0.1.length) with
+    | some idx =>
+      rw [hfind] at h
+      simp only [pure, Except.pure, Except.ok.injEq, Prod.mk.injEq] at h
+      obtain ⟨he, ht⟩ := h
+      subst he
+      obtain ⟨hocc, hle, hmin⟩ := findFrom_spec hfind
+      refine ⟨by rw [← ht], by rw [← ht], hle, ?_, Or.inr (occursAt_single.mp hocc)⟩
+      exact not_mem_slice (fun j h1 h2 hj => hmin j h1 h2 (occursAt_single.mpr hj))
+    | none =>
+      rw [hfind] at h
+      simp only [pure, Except.pure, Except.ok.injEq, Prod.mk.injEq] at h
+      obtain ⟨he, ht⟩ := h
+      subst he
+      have hno := findFrom_none_spec hbound hfind
+      refine ⟨by rw [← ht], by rw [← ht], hbound, ?_, Or.inl rfl⟩
+      exact not_mem_slice (fun j h1 _ hj => hno j h1 (occursAt_single.mpr hj))
+
+/-- **String literal boundary.** The literal starts with the first matching opener; it ends right after the first closer
+    (`IsCloser`: an occurrence of the closing sequence at or after the body start, preceded inside the body by an even run
+    of backslashes) — or, when there is none, it is unterminated and ends somewhere inside the source. -/
+theorem parseQuote_spec {d : TokenDef} (hw : wf d = true) {src : Str} {b e : Nat} {t : Token}
+    (h : parseQuote d src b = .ok (e, t)) :
+    ∃ pair, firstOpen d.quote src b = .ok pair ∧ t.string = slice src b e ∧
+      ((∃ idx, IsCloser src pair.2 (b + pair.1.length) idx ∧
+          (∀ j, b + pair.1.length ≤ j → j < idx → ¬ IsCloser src pair.2 (b + pair.1.length) j) ∧ e = idx + pair.2.length) ∨
+       ((∀ j, ¬ IsCloser src pair.2 (b + pair.1.length) j) ∧ b + pair.1.length ≤ e ∧ e ≤ src.length)) := by
+  unfold parseQuote at h
+  cases hf : firstOpen d.quote src b with
+  | error er => rw [hf] at h; cases h
+  | ok p0 =>
+    rw [hf] at h
+    obtain ⟨hmem, hs⟩ := firstOpen_ok hf
+    have hlen := wf_quote hw hmem
+    have hbound := startsWithAt_bound hs
+    simp only [bind, Except.bind] at h
+    cases hq : quoteLoop src p0.2 (b + p0.1.length) src.length (b + p0.1.length) with
+    | error er => rw [hq] at h; cases h
+    | ok E =>
+      rw [hq] at h
+      simp only [] at h
+      split at h
+      · cases h
+      · simp only [pure, Except.pure, Except.ok.injEq, Prod.mk.injEq] at h
+        obtain ⟨he, ht⟩ := h
+        subst he
+        refine ⟨p0, rfl, by rw [← ht], ?_⟩
+        exact quoteLoop_spec hlen.2 _ _ _ _ (Nat.le_refl _) hbound (by omega) (fun j h1 h2 => by omega) hq
+
+/-! ### one closure theorem over the layout rewrites -/
+
+/-- one layout rewrite step: exactly the situations of the four end-to-end theorems -/
+inductive LayoutStep (d : TokenDef) : Str → Str → Prop
+  | blank (a run r1 w : Str) (ta L1 : List (Nat × Str)) :
+      w ≠ [] → (∀ c ∈ w, d.whiteSpace.contains c = true) → (Str.count '\n' w = 0 ∨ Str.count '\n' run ≠ 0) →
+      (∀ c ∈ run, d.whiteSpace.contains c = true) → headIn d.whiteSpace r1 = false →
+      TokPrefix d (run ++ r1) (w ++ (run ++ r1)) a ta → lexS d r1 = .ok L1 →
+      LayoutStep d (a ++ (run ++ r1)) (a ++ (w ++ (run ++ r1)))
+  | comment (a w body r : Str) (p : Str × Str) (ta L : List (Nat × Str)) :
+      w ≠ [] → (∀ c ∈ w, d.whiteSpace.contains c = true) → Str.count '\n' w = 0 →
+      firstOpen d.comment (p.1 ++ body ++ r) 0 = .ok p → '\n' ∉ body → nlOrEnd r = true →
+      TokPrefix d r (w ++ (p.1 ++ body ++ r)) a ta → lexS d r = .ok L →
+      LayoutStep d (a ++ r) (a ++ (w ++ (p.1 ++ body ++ r)))
+  | commentLine (a ind body nlrun r1 : Str) (p : Str × Str) (ta L1 : List (Nat × Str)) :
+      (∀ c ∈ ind, d.whiteSpace.contains c = true) → d.whiteSpace.contains '\n' = true →
+      (∀ c ∈ nlrun, d.whiteSpace.contains c = true) → nlOrEnd nlrun = true → nlrun ≠ [] → headIn d.whiteSpace r1 = false →
+      firstOpen d.comment (p.1 ++ body ++ (nlrun ++ r1)) 0 = .ok p → '\n' ∉ body →
+      TokPrefix d (nlrun ++ r1) (('\n' :: ind) ++ (p.1 ++ body ++ (nlrun ++ r1))) a ta → lexS d r1 = .ok L1 →
+      LayoutStep d (a ++ (nlrun ++ r1)) (a ++ (('\n' :: ind) ++ (p.1 ++ body ++ (nlrun ++ r1))))
+  | reindent (u u' : Nat) (s s' : Str) (L L' : List (Nat × Str)) :
+      0 < u → 0 < u' → Reindent d u u' s s' L L' → LayoutStep d s s'
+
+/-- layout equivalence of sources: any sequence of layout steps, forwards (insert) or backwards (remove) -/
+inductive LayoutEq (d : TokenDef) : Str → Str → Prop
+  | refl (s : Str) : LayoutEq d s s
+  | step {s s' : Str} : LayoutStep d s s' → LayoutEq d s s'
+  | symm {s s' : Str} : LayoutEq d s s' → LayoutEq d s' s
+  | trans {s s' s'' : Str} : LayoutEq d s s' → LayoutEq d s' s'' → LayoutEq d s s''
+
+theorem LayoutStep.tokenize {d : TokenDef} (hr : layoutReady d) {s s' : Str} (h : LayoutStep d s s') :
+    (tokenize d s).map (List.map simplify) = (tokenize d s').map (List.map simplify) := by
+  cases h with
+  | blank a run r1 w ta L1 h1 h2 h3 h4 h5 h6 h7 => exact layout_blank hr a run r1 w h1 h2 h3 h4 h5 h6 h7
+  | comment a w body r p ta L h1 h2 h3 h4 h5 h6 h7 h8 => exact layout_comment hr a w body r p h1 h2 h3 h4 h5 h6 h7 h8
+  | commentLine a ind body nlrun r1 p ta L1 h1 h2 h3 h4 h5 h6 h7 h8 h9 h10 =>
+    exact layout_comment_line hr a ind body nlrun r1 p h1 h2 h3 h4 h5 h6 h7 h8 h9 h10
+  | reindent u u' s s' L L' hu hu' h => exact width_chars hr hu hu' h
+
+/-- **Closure.** Layout-equivalent sources have the same `Tokenizer.parse` up to source maps. -/
+theorem LayoutEq.tokenize {d : TokenDef} (hr : layoutReady d) {s s' : Str} (h : LayoutEq d s s') :
+    (tokenize d s).map (List.map simplify) = (tokenize d s').map (List.map simplify) := by
+  induction h with
+  | refl => rfl
+  | step h => exact h.tokenize hr
+  | symm _ ih => exact ih.symm
+  | trans _ _ ih1 ih2 => exact ih1.trans ih2
+
+/-! ### a declarative (maximal munch) specification of the first token -/
+
+/-- the class test of a domain on the rest `s` of the source -/
+def accepts (d : TokenDef) (dom : Nat) (s : Str) : Prop :=
+  (dom = Dom.whiteSpace ∧ headIn d.whiteSpace s = true) ∨
+  (dom = Dom.comment ∧ ∃ p ∈ d.comment, Str.startsWith s p.1 = true) ∨
+  (dom = Dom.quote ∧ ∃ p ∈ d.quote, Str.startsWith s p.1 = true) ∨
+  (dom = Dom.number ∧ headIn d.number s = true) ∨
+  (dom = Dom.identifier ∧ headIn d.identifier s = true) ∨
+  (dom = Dom.symbol ∧ headIn d.symbol s = true)
+
+/-- the dispatched domain: the first one in the analyse order whose class test accepts -/
+def Dispatch (d : TokenDef) (s : Str) (dom : Nat) : Prop :=
+  ∃ pre post, d.analyzeOrder = pre ++ dom :: post ∧ accepts d dom s ∧ ∀ y ∈ pre, ¬ accepts d y s
+
+/-- `s.take e` is the longest prefix of `s` inside the alphabet `a` -/
+def LongestRun (a s : Str) (e : Nat) : Prop :=
+  e ≤ s.length ∧ (∀ c ∈ s.take e, a.contains c = true) ∧ headIn a (s.drop e) = false
+
+def combinedAt (d : TokenDef) (s : Str) (w : Nat) : Prop := w ≤ s.length ∧ s.take w ∈ d.combinedSymbols
+
+/-- symbols: the longest combined symbol of three, then two characters, else a single symbol character -/
+def SymbolMunch (d : TokenDef) (s : Str) (e : Nat) : Prop :=
+  (e = 3 ∧ combinedAt d s 3) ∨ (e = 2 ∧ combinedAt d s 2 ∧ ¬ combinedAt d s 3) ∨
+  (e = 1 ∧ ¬ combinedAt d s 3 ∧ ¬ combinedAt d s 2 ∧ headIn d.symbol s = true)
+
+theorem headIn_of_charIn {a : Str} {c : Char} {cs : Str} (b : Bool) (h : charIn a (c :: cs) 0 = .ok b) : headIn a (c :: cs) = b := by
+  rw [charIn_zero] at h; injection h
+
+theorem anyOpen_iff {pairs : List (Str × Str)} {s : Str} : anyOpen pairs s 0 = true ↔ ∃ p ∈ pairs, Str.startsWith s p.1 = true := by
+  simp [anyOpen, startsWithAt_zero]
+
+/-- an analyzer's answer is the class test -/
+theorem analyzer_accepts {d : TokenDef} {c : Char} {cs : Str} {y : Nat} {b : Bool} (h : analyzer d y (c :: cs) 0 = .ok b) :
+    (b = true ↔ accepts d y (c :: cs)) := by
+  unfold analyzer at h
+  unfold accepts
+  by_cases h0 : y = Dom.whiteSpace
+  · subst h0; simp only [↓reduceIte] at h
+    have := headIn_of_charIn b h
+    simp [this, Dom.whiteSpace, Dom.comment, Dom.quote, Dom.number, Dom.identifier, Dom.symbol]
+  · simp only [h0, ↓reduceIte] at h
+    by_cases h1 : y = Dom.comment
+    · subst h1; simp only [↓reduceIte] at h
+      injection h with h
+      simp [← h, anyOpen_iff, Dom.whiteSpace, Dom.comment, Dom.quote, Dom.number, Dom.identifier, Dom.symbol]
+    · simp only [h1, ↓reduceIte] at h
+      by_cases h2 : y = Dom.quote
+      · subst h2; simp only [↓reduceIte] at h
+        injection h with h
+        simp [← h, anyOpen_iff, Dom.whiteSpace, Dom.comment, Dom.quote, Dom.number, Dom.identifier, Dom.symbol]
+      · simp only [h2, ↓reduceIte] at h
+        by_cases h3 : y = Dom.number
+        · subst h3; simp only [↓reduceIte] at h
+          have := headIn_of_charIn b h
+          simp [this, Dom.whiteSpace, Dom.comment, Dom.quote, Dom.number, Dom.identifier, Dom.symbol]
+        · simp only [h3, ↓reduceIte] at h
+          by_cases h4 : y = Dom.identifier
+          · subst h4; simp only [↓reduceIte] at h
+            have := headIn_of_charIn b h
+            simp [this, Dom.whiteSpace, Dom.comment, Dom.quote, Dom.number, Dom.identifier, Dom.symbol]
+          · simp only [h4, ↓reduceIte] at h
+            by_cases h5 : y = Dom.symbol
+            · subst h5; simp only [↓reduceIte] at h
+              have := headIn_of_charIn b h
+              simp [this, Dom.whiteSpace, Dom.comment, Dom.quote, Dom.number, Dom.identifier, Dom.symbol]
+            · simp only [h5, ↓reduceIte] at h; cases h
+
+theorem analyzeGo_dispatch {d : TokenDef} {c : Char} {cs : Str} {dom : Nat} : ∀ (order : List Nat),
+    analyzeGo d (c :: cs) 0 order = .ok dom →
+    ∃ pre post, order = pre ++ dom :: post ∧ accepts d dom (c :: cs) ∧ ∀ y ∈ pre, ¬ accepts d y (c :: cs)
+  | [], h => by cases h
+  | y :: rest, h => by
+    unfold analyzeGo at h
+    cases ha : analyzer d y (c :: cs) 0 with
+    | error e => rw [ha] at h; cases h
+    | ok b =>
+      rw [ha] at h
+      have hacc := analyzer_accepts ha
+      simp only [bind, Except.bind] at h
+      cases b with
+      | true =>
+        simp only [↓reduceIte, pure, Except.pure, Except.ok.injEq] at h
+        subst h
+        exact ⟨[], rest, rfl, hacc.mp rfl, by simp⟩
+      | false =>
+        simp only [Bool.false_eq_true, ↓reduceIte] at h
+        obtain ⟨pre, post, e1, e2, e3⟩ := analyzeGo_dispatch rest h
+        refine ⟨y :: pre, post, by simp [e1], e2, ?_⟩
+        intro z hz
+        simp only [List.mem_cons] at hz
+        cases hz with
+        | inl hz => subst hz; intro hh; have := hacc.mpr hh; cases this
+        | inr hz => exact e3 z hz
+
+theorem dispatch_of_analyze {d : TokenDef} {s : Str} {dom : Nat} (hne : s ≠ []) (h : analyzeDomain d s 0 = .ok dom) :
+    Dispatch d s dom := by
+  cases s with
+  | nil => exact absurd rfl hne
+  | cons c cs => exact analyzeGo_dispatch _ h
+
+theorem headIn_drop_of_stop {a s : Str} {e : Nat} (h : ∀ c, s[e]? = some c → a.contains c = false) : headIn a (s.drop e) = false := by
+  cases hd : s.drop e with
+  | nil => rfl
+  | cons c cs =>
+    have : (s.drop e)[0]? = some c := by rw [hd]; rfl
+    rw [List.getElem?_drop] at this
+    exact h c (by simpa using this)
+
+theorem longestRun_of_span (a s : Str) : LongestRun a s (spanLen a s 0) := by
+  have h1 := spanLen_le a s 0
+  refine ⟨by simp at h1; omega, ?_, ?_⟩
+  · intro c hc
+    have := spanLen_all a s 0 c (by simpa [slice] using hc)
+    exact this
+  · apply headIn_drop_of_stop
+    intro c hc
+    exact spanLen_stop a s 0 c (by simpa using hc)
+
+theorem indexOf?_none {α : Type} [DecidableEq α] (x : α) : ∀ (l : List α), indexOf? x l = none → x ∉ l
+  | [], _ => by simp
+  | y :: ys, h => by
+    simp only [indexOf?] at h
+    split at h
+    · cases h
+    · rename_i hy
+      cases hr : indexOf? x ys with
+      | some j => rw [hr] at h; cases h
+      | none =>
+        simp only [List.mem_cons, not_or]
+        exact ⟨fun e => hy e.symm, indexOf?_none x ys hr⟩
+
+theorem combined_none_spec {d : TokenDef} {s : Str} {w : Nat} (hw : 0 < w) (h : combined d s 0 w = .ok none) : ¬ combinedAt d s w := by
+  unfold combined at h
+  simp only [Nat.zero_add] at h
+  intro ⟨hl, hm⟩
+  have g : ¬ (w - 1 ≥ s.length) := by omega
+  simp only [g, ↓reduceIte, slice_zero] at h
+  cases hi : indexOf? (s.take w) d.combinedSymbols with
+  | none => exact indexOf?_none _ _ hi hm
+  | some off =>
+    rw [hi] at h
+    simp only [] at h
+    cases hty : typeOf d (T.beginCombine + off) with
+    | error e => rw [hty] at h; cases h
+    | ok ty => rw [hty] at h; simp [bind, Except.bind, pure, Except.pure] at h
+
+theorem combined_some_spec {d : TokenDef} {s : Str} {w e : Nat} {t : Token} (hw : 0 < w) (h : combined d s 0 w = .ok (some (e, t))) :
+    e = w ∧ combinedAt d s w := by
+  refine ⟨combined_end h, ?_⟩
+  unfold combined at h
+  simp only [Nat.zero_add] at h
+  split at h
+  · cases h
+  · rename_i g
+    split at h
+    · cases h
+    · rename_i off hi
+      rw [slice_zero] at hi
+      exact ⟨by omega, indexOf?_mem _ _ _ hi⟩
+
+/-- `parse_symbol` takes the longest combined symbol (three characters, then two), else one symbol character -/
+theorem parseSymbol_munch {d : TokenDef} {s : Str} {e : Nat} {t : Token} (h : parseSymbol d s 0 = .ok (e, t)) : SymbolMunch d s e := by
+  unfold parseSymbol at h
+  cases h3 : combined d s 0 3 with
+  | error er => rw [h3] at h; cases h
+  | ok r3 =>
+    rw [h3] at h
+    simp only [bind, Except.bind] at h
+    cases r3 with
+    | some r =>
+      simp only [pure, Except.pure, Except.ok.injEq] at h
+      subst h
+      obtain ⟨e1, e2⟩ := combined_some_spec (by omega) h3
+      exact Or.inl ⟨e1, e2⟩
+    | none =>
+      simp only [] at h
+      have n3 := combined_none_spec (by omega) h3
+      cases h2 : combined d s 0 2 with
+      | error er => rw [h2] at h; cases h
+      | ok r2 =>
+        rw [h2] at h
+        cases r2 with
+        | some r =>
+          simp only [pure, Except.pure, Except.ok.injEq] at h
+          subst h
+          obtain ⟨e1, e2⟩ := combined_some_spec (by omega) h2
+          exact Or.inr (Or.inl ⟨e1, e2, n3⟩)
+        | none =>
+          simp only [] at h
+          have n2 := combined_none_spec (by omega) h2
+          right; right
+          cases hv : charAt s 0 with
+          | error er => rw [hv] at h; cases h
+          | ok value =>
+            rw [hv] at h
+            have hget := charAt_ok hv
+            simp only [] at h
+            split at h
+            · cases h
+            · rename_i off hoff
+              have hmem := indexOf?_mem _ _ _ hoff
+              have hhead : headIn d.symbol s = true := by
+                cases s with
+                | nil => simp at hget
+                | cons c cs =>
+                  simp only [List.getElem?_cons_zero, Option.some.injEq] at hget
+                  subst hget; simpa [headIn] using hmem
+              refine ⟨?_, n3, n2, hhead⟩
+              cases hty : typeOf d (Dom.symbol * 16 + off) with
+              | error er => rw [hty] at h; cases h
+              | ok ty =>
+                rw [hty] at h
+                simp only [Nat.zero_add] at h
+                repeat' split at h
+                all_goals first
+                  | (simp only [pure, Except.pure, Except.ok.injEq, Prod.mk.injEq] at h; exact h.1.symm)
+                  | cases h
+
+/-- the declarative description of the first token of `s`: dispatch by the first accepting domain, then maximal munch
+    for that kind; `e` characters are consumed and the token stands for exactly that text -/
+def TokSpec (d : TokenDef) (s : Str) (e : Nat) (t : Token) : Prop :=
+  ∃ dom, Dispatch d s dom ∧ 0 < e ∧ e ≤ s.length ∧ rawText t = s.take e ∧
+    ((dom = Dom.whiteSpace ∧ LongestRun d.whiteSpace s e) ∨
+     (dom = Dom.number ∧ LongestRun d.number s e) ∨
+     (dom = Dom.identifier ∧ LongestRun d.identifier s e ∧ t.type = T.name) ∨
+     (dom = Dom.comment ∧ t.type = T.comment ∧ ∃ p, firstOpen d.comment s 0 = .ok p ∧ p.1.length ≤ e ∧
+        '\n' ∉ slice s p.1.length e ∧ (e = s.length ∨ s[e]? = some '\n')) ∨
+     (dom = Dom.quote ∧ ∃ p, firstOpen d.quote s 0 = .ok p ∧
+        ((∃ idx, IsCloser s p.2 p.1.length idx ∧ (∀ j, p.1.length ≤ j → j < idx → ¬ IsCloser s p.2 p.1.length j) ∧ e = idx + p.2.length) ∨
+         (∀ j, ¬ IsCloser s p.2 p.1.length j))) ∨
+     (dom = Dom.symbol ∧ SymbolMunch d s e))
+
+/-- **The lexer meets the maximal-munch specification.** -/
+theorem step_spec {d : TokenDef} (hw : wf d = true) (hwl : wfLayout d = true) {s : Str} (hne : s ≠ []) {e : Nat} {t : Token}
+    (h : step d s = .ok (e, t)) : TokSpec d s e t := by
+  have hpos : 0 < s.length := List.length_pos_iff.mpr hne
+  unfold step at h
+  cases hd : analyzeDomain d s 0 with
+  | error er => rw [hd] at h; cases h
+  | ok dom =>
+    rw [hd] at h
+    simp only [bind, Except.bind] at h
+    have hs := parser_ok hw hpos hd h
+    have htext : rawText t = s.take e := by rw [hs.text, slice_zero]
+    refine ⟨dom, dispatch_of_analyze hne hd, hs.lt, hs.le, htext, ?_⟩
+    unfold parser at h
+    split at h
+    · rename_i h0
+      left
+      obtain ⟨f1, _, _⟩ := parseWhiteSpace_facts hw h
+      rw [f1, Nat.zero_add]
+      exact ⟨h0, longestRun_of_span _ _⟩
+    · split at h
+      · rename_i h0
+        right; right; right; left
+        obtain ⟨p, hf, hty, _, hk, hnl, hend⟩ := parseComment_spec hwl h
+        simp only [Nat.zero_add] at hk hnl
+        exact ⟨h0, hty, p, hf, hk, hnl, hend⟩
+      · split at h
+        · rename_i h0
+          right; right; right; right; left
+          obtain ⟨p, hf, _, hcl⟩ := parseQuote_spec hw h
+          simp only [Nat.zero_add] at hcl
+          refine ⟨h0, p, hf, ?_⟩
+          cases hcl with
+          | inl hc => exact Or.inl hc
+          | inr hc => exact Or.inr hc.1
+        · split at h
+          · rename_i h0
+            right; left
+            have : e = spanLen d.number s 0 := by
+              unfold parseNumber at h
+              simp only [Except.ok.injEq, Prod.mk.injEq] at h; omega
+            rw [this]
+            exact ⟨h0, longestRun_of_span _ _⟩
+          · split at h
+            · rename_i h0
+              right; right; left
+              unfold parseIdentifier at h
+              simp only [Except.ok.injEq, Prod.mk.injEq] at h
+              have he : e = spanLen d.identifier s 0 := by omega
+              rw [he]
+              exact ⟨h0, longestRun_of_span _ _, by rw [← h.2]⟩
+            · split at h
+              · rename_i h0
+                right; right; right; right; right
+                exact ⟨h0, parseSymbol_munch h⟩
+              · cases h
+
+/-- the declarative description of the whole raw token sequence: token by token, each the `TokSpec` of what is left -/
+inductive LexSpec (d : TokenDef) : Str → List (Nat × Str) → Prop
+  | nil : LexSpec d [] []
+  | cons {s : Str} {e : Nat} {t : Token} {L : List (Nat × Str)} :
+      s ≠ [] → TokSpec d s e t → LexSpec d (s.drop e) L → LexSpec d s (simplify t :: L)
+
+/-- **lex ⊆ spec.** Whatever `parse_impl` returns (up to source maps) is a token sequence the maximal-munch
+    specification describes. -/
+theorem lexS_spec {d : TokenDef} (hw : wf d = true) (hwl : wfLayout d = true) : ∀ (n : Nat) (s : Str) (L : List (Nat × Str)),
+    s.length ≤ n → lexS d s = .ok L → LexSpec d s L
+  | 0, s, L, hn, h => by
+    have : s = [] := List.eq_nil_of_length_eq_zero (by omega)
+    subst this
+    rw [lexS_nil] at h; injection h with h; subst h
+    exact .nil
+  | n + 1, s, L, hn, h => by
+    by_cases hne : s = []
+    · subst hne
+      rw [lexS_nil] at h; injection h with h; subst h
+      exact .nil
+    · rw [lexS_unfold hw s hne] at h
+      cases hs : step d s with
+      | error e => rw [hs] at h; cases h
+      | ok res =>
+        obtain ⟨e, t⟩ := res
+        rw [hs] at h
+        simp only [] at h
+        cases hr : lexS d (s.drop e) with
+        | error er => rw [hr] at h; simp [Except.map] at h
+        | ok L' =>
+          rw [hr] at h
+          simp only [Except.map, Except.ok.injEq] at h
+          subst h
+          have hspec := step_spec hw hwl hne hs
+          obtain ⟨_, _, hpos, _, _, _⟩ := hspec
+          exact .cons hne (step_spec hw hwl hne hs) (lexS_spec hw hwl n _ _ (by simp; omega) hr)
+
 end Tranp.Lexer
